@@ -216,7 +216,26 @@ fn main() {
                 let mut host = fresh(&files, filler, dep, dup);
                 // the long-lived analysis has answered everything about the initial workspace before the first change
                 // (memoised results exist that the change must invalidate)
-                let _ = answers(&host, &files, false, filler);
+                let warm = answers(&host, &files, false, filler);
+                // `check_seed`: the initial workspace itself is compared too (answers must not depend on the order of
+                // the queries or on the instance: fresh, fresh asked in reverse order, and the warm one)
+                if case["check_seed"].as_bool().unwrap_or(false) {
+                    let f1 = answers(&fresh(&files, filler, dep, dup), &files, false, filler);
+                    let f2 = answers(&fresh(&files, filler, dep, dup), &files, true, filler);
+                    compared += warm.len() as u64;
+                    steps += 1;
+                    for (((k, a), (_, b)), (_, c2)) in warm.iter().zip(f1.iter()).zip(f2.iter()) {
+                        if a != b || b != c2 {
+                            let what = if b != c2 { "fresh analyses disagree (query order)" } else { "long-lived analysis differs from fresh" };
+                            let alpha_equivalent = alpha_types(a) == alpha_types(b) && alpha_types(b) == alpha_types(c2);
+                            local.push(json!({"kind": "mismatch", "prop": "C11", "features": {"what": what, "query": k.split('/').nth(1), "op": "seed",
+                                    "alpha_equivalent": alpha_equivalent, "import_cycle": import_cycle(&files)},
+                                "detail": {"case": case, "step": 0, "query": k, "long_lived": a.chars().take(400).collect::<String>(),
+                                           "fresh": b.chars().take(400).collect::<String>(), "fresh_reverse": c2.chars().take(400).collect::<String>()}}));
+                            break;
+                        }
+                    }
+                }
                 let mut pending = Change::default();
                 for (si, st) in hist.iter().enumerate().skip(1) {
                     let op = &st["op"];
